@@ -1227,9 +1227,10 @@ where
 
         let mut fragments = C::new();
 
-        // whether to read the fragment as the basic offset table (true)
-        // or as a pixel data fragment (false)
+        // whether the current item is the first one (basic offset table)
         let mut first = true;
+        // whether a value token was found in the current item
+        let mut item_has_value = false;
 
         while let Some(token) = dataset.advance() {
             let token = token.context(ReadTokenSnafu)?;
@@ -1241,25 +1242,33 @@ where
                             .read_u32_to_vec(len, &mut table)
                             .context(ReadItemSnafu)?;
                         offset_table = Some(table);
-                        first = false;
                     } else {
                         let mut data = Vec::new();
                         decoder.read_to_vec(len, &mut data).context(ReadItemSnafu)?;
                         fragments.push(data);
                     }
+                    item_has_value = true;
                 }
                 LazyDataToken::ItemEnd => {
-                    // at the end of the first item ensure the presence of
-                    // an empty offset_table here, so that the next items
-                    // are seen as compressed fragments
-                    if offset_table.is_none() {
-                        offset_table = Some(Vec::new())
+                    if first {
+                        // at the end of the first item ensure the presence of
+                        // an empty offset_table here, so that the next items
+                        // are seen as compressed fragments
+                        if offset_table.is_none() {
+                            offset_table = Some(Vec::new())
+                        }
+                        // the basic offset table item is over,
+                        // even when it was empty and yielded no value token
+                        first = false;
+                    } else if !item_has_value {
+                        // a fragment of length zero has no value token,
+                        // but it is still a fragment
+                        fragments.push(Vec::new());
                     }
-                    // the basic offset table item is over,
-                    // even when it was empty and yielded no value token
-                    first = false;
                 }
-                LazyDataToken::ItemStart { len: _ } => { /* no-op */ }
+                LazyDataToken::ItemStart { len: _ } => {
+                    item_has_value = false;
+                }
                 LazyDataToken::SequenceEnd => {
                     // end of pixel data
                     break;
